@@ -76,12 +76,14 @@ CHECKS = {
   technique="Lean 4 proofs about the path functions (M-project) + tie through the verif hooks on generated project trees + end-to-end through the binary",
   text=("moduleName_spec (<root>/<src|test>/<segs>/<n>.gleam is importable as segs/n), moduleName_other_ext, assignRoot_innermost / assignRoot_total "
         "(each file belongs to the innermost package root containing it), isLocal_iff (exactly build/packages/<name> is external), "
-        "free_standing_none, projectParent_has_toml (Props/C17.lean). Tie: project trees on disk (application, registry and path dependencies, nested "
+        "free_standing_none, projectParent_has_toml (Props/C17.lean); on the model of Package::visible_modules (M-imports): resolve_sound (an import reaches a module "
+        "of that name of the importing package or of a direct dependency and nothing else), resolve_complete, transitive_invisible, own_wins, "
+        "unique_candidate (Props/C17Imports.lean), tied to go-to-definition on every import of generated multi-package workspaces. Tie: project trees on disk (application, registry and path dependencies, nested "
         "module directories, equal module names, transitive edges, a free-standing file): module_name, find_gleam_project_parent, lower_vfs, "
         "assemble_graph through the verif wrappers vs the model vs the layout by construction; the real binary is asked for definitions across "
         "packages (direct dependencies resolve, transitive ones must not, externals are not renameable), in sessions with several package roots, with a dependency "
         "module opened first, with the manifest changed and re-read, and with dependency chains across graph rebuilds. PARTIAL: directory walking and TOML parsing "
-        "are not modelled; visible_modules / import resolution is covered end-to-end only."),
+        "are not modelled."),
   note=TB + "The filesystem enters the model as the set of directories that contain a gleam.toml.", ref="5.C17, 4.7"),
  "C15": dict(
   technique="Lean 4 proof on the message-level model M-server (step_total etc.) + message-by-message tie with the real binary over stdio",
